@@ -12,18 +12,18 @@ git apply --check $out/patch.diff || { echo "PATCH DOES NOT APPLY"; exit 1; }
 git apply $out/patch.diff
 cargo test --workspace --offline --no-fail-fast > /tmp/confirm.$$.suite 2>&1; rc_suite=$?
 npass=$(grep -E "^test result: ok" /tmp/confirm.$$.suite | sed -E 's/.* ([0-9]+) passed.*/\1/' | paste -sd+ | bc)
-mkdir -p lib/tests && cp $out/demo.rs lib/tests/$demo.rs
-cargo test -p geo-booleanop --offline --test $demo $extra > /tmp/confirm.$$.mut 2>&1; rc_mut=$?
+mkdir -p ${DEMO_DIR:-lib/tests} && cp $out/demo.rs ${DEMO_DIR:-lib/tests}/$demo.rs
+cargo test -p ${PKG:-geo-booleanop} --offline --test $demo $extra > /tmp/confirm.$$.mut 2>&1; rc_mut=$?
 # without the change
 git apply -R $out/patch.diff
-cargo test -p geo-booleanop --offline --test $demo $extra > /tmp/confirm.$$.clean 2>&1; rc_clean=$?
+cargo test -p ${PKG:-geo-booleanop} --offline --test $demo $extra > /tmp/confirm.$$.clean 2>&1; rc_clean=$?
 git checkout -q -- . && git clean -fdq -e OUT -e target
 echo "demo without change: rc=$rc_clean ; suite with change: rc=$rc_suite passed=$npass (includes demo) ; demo with change: rc=$rc_mut"
 if [ $rc_clean -eq 0 ] && [ $rc_mut -ne 0 ] && [ $rc_suite -eq 0 ] && [ "$npass" = "45" ]; then
   d=/verif/seeded/$id; mkdir -p $d
   cp $out/patch.diff $d/patch.diff; cp $out/demo.rs $d/demo.rs; cp $out/README.md $d/README.agent.md
   tail -5 /tmp/confirm.$$.mut > $d/demo_with_change.tail.txt
-  echo "{\"id\": \"$id\", \"property\": \"$prop\", \"demo\": \"place demo.rs at lib/tests/$demo.rs; cargo test -p geo-booleanop --offline --test $demo $extra\", \"confirmed\": {\"demo_without_change_rc\": $rc_clean, \"demo_with_change_rc\": $rc_mut, \"existing_tests_passed_with_change\": $npass, \"existing_suite_rc_with_change\": $rc_suite}}" > $d/meta.partial.json
+  echo "{\"id\": \"$id\", \"property\": \"$prop\", \"demo\": \"place demo.rs at lib/tests/$demo.rs; cargo test -p ${PKG:-geo-booleanop} --offline --test $demo $extra\", \"confirmed\": {\"demo_without_change_rc\": $rc_clean, \"demo_with_change_rc\": $rc_mut, \"existing_tests_passed_with_change\": $npass, \"existing_suite_rc_with_change\": $rc_suite}}" > $d/meta.partial.json
   echo CONFIRMED $id
 else
   echo NOT-CONFIRMED $id
